@@ -90,6 +90,10 @@ package mqttproxy
 // inside sync.Once there would park a goroutine under that mutex and hang the
 // bubble) - the gates that matter are in sem.Semaphore and simnet. Every
 // connection is dialled from a task with a name of its own (see c17Dial).
+// session.go is under "timeshim": the resend tickers of sessions created at the
+// same virtual instant otherwise fire in an irreproducible order, which showed
+// (1 seed in 500) once such ticker goroutines had queued on the broker lock
+// behind a parked holder and then consumed recorded select draws in that order.
 
 import (
 	"bufio"
